@@ -206,6 +206,8 @@ struct ElossWorld
     std::vector<std::string> matname;
     std::vector<std::string> parname;
     std::vector<double> mass;
+    std::vector<double> charge;  // [e]
+    std::vector<double> electron_density;  // per material [1/len^3], from the inputs below
 
     ElossWorld()
     {
@@ -223,6 +225,15 @@ struct ElossWorld
                 {native_value_from(MolCcDensity{molcc}), 293.0, st, std::move(el), name});
             cut.push_back(cutoff);
             matname.push_back(name);
+            // electrons per volume = number density x sum_i(fraction_i Z_i), fractions normalised
+            static int const zel[] = {18, 1, 82, 8};
+            double fsum = 0, zsum = 0;
+            for (auto const& ef : mi.materials.back().elements_fractions)
+            {
+                fsum += ef.second;
+                zsum += ef.second * zel[ef.first.get()];
+            }
+            electron_density.push_back(double(mi.materials.back().number_density) * zsum / fsum);
         };
         mat(1.0, MatterState::solid, {{ElementId{0}, 1.0}}, "Ar-cut1keV", 1e-3);
         mat(1.0, MatterState::solid, {{ElementId{0}, 1.0}}, "Ar-cut1MeV", 1.0);
@@ -241,9 +252,14 @@ struct ElossWorld
             {"mu_minus", pdg::mu_minus(), MevMass{105.6583745}, ElementaryCharge{-1},
              stable_decay_constant},
             {"proton", pdg::proton(), MevMass{938.27208816}, ElementaryCharge{1},
+             stable_decay_constant},
+            {"alpha", pdg::alpha(), MevMass{3727.3794066}, ElementaryCharge{2},
+             stable_decay_constant},
+            {"anti_alpha", pdg::anti_alpha(), MevMass{3727.3794066}, ElementaryCharge{-2},
              stable_decay_constant}};
-        parname = {"electron", "positron", "mu_minus", "proton"};
-        mass = {0.5109989461, 0.5109989461, 105.6583745, 938.27208816};
+        parname = {"electron", "positron", "mu_minus", "proton", "alpha", "anti_alpha"};
+        mass = {0.5109989461, 0.5109989461, 105.6583745, 938.27208816, 3727.3794066, 3727.3794066};
+        charge = {-1, 1, -1, 1, 2, -2};
         particles = std::make_shared<ParticleParams>(std::move(pi));
 
         CutoffParams::Input ci;
@@ -410,6 +426,32 @@ inline void run_helper_case(Ctx& C, ElossWorld& W, std::string regime, HelperCas
         C.rep.observe("assert:" + verif::describe(e));
         return;
     }
+    if (var > 0)
+    {
+        // Bohr's variance of the restricted loss (Geant4 PRM section 7.3.1, GEANT3 PHYS332, the
+        // references of the class documentation), computed from the case's own inputs:
+        //   sigma^2 = 2 pi r_e^2 m_e c^2 n_el (z^2 / beta^2) T s (1 - beta^2 / 2)
+        double const M = W.mass[std::size_t(c.par)], me = W.mass[0];
+        double const gam = 1 + c.E / M;
+        double const bsq = 1 - 1 / (gam * gam);
+        Predicted p0 = predict_model(c.E, M, me, W.cut[std::size_t(c.mat)], 1.0, 1.0, c.par == 0);
+        double const z = W.charge[std::size_t(c.par)];
+        double const expect = 2 * constants::pi * constants::r_electron * constants::r_electron * me
+                              * W.electron_density[std::size_t(c.mat)] * z * z / bsq * p0.tcut_eff
+                              * c.step * (1 - 0.5 * bsq);
+        json vp = {{"particle", W.parname[std::size_t(c.par)]}, {"charge", z},
+                   {"material", W.matname[std::size_t(c.mat)]}, {"energy_MeV", c.E},
+                   {"step_cm", c.step}, {"bohr_var_helper", var}, {"bohr_var_documented", expect}};
+        // beta^2 = 1 - 1/gamma^2 loses relative accuracy ~ eps / beta^2 for slow particles
+        double const tol = 1e-9 + 8 * 2.3e-16 / bsq;
+        if (!(std::fabs(var - expect) <= tol * expect))
+            C.rep.violation("C15/parameter/EnergyLossHelper/bohr-variance",
+                            "Bohr variance handed to the gamma/Gaussian/Urban samplers differs from "
+                            "the documented formula",
+                            vp);
+        else
+            C.rep.held(std::string("EnergyLossHelper/bohr-variance/z=") + std::to_string(int(z)));
+    }
     bool is_el = c.par == 0;
     Predicted pr = predict_model(c.E, W.mass[std::size_t(c.par)], W.mass[0],
                                  W.cut[std::size_t(c.mat)], c.mean_loss, var, is_el);
@@ -515,6 +557,11 @@ inline void points_eloss_helper(Ctx& C, ElossWorld& W, verif::Rng& g)
     run_helper_case(C, W, "gamma/muon", {mu, Ar1keV, 1e-2, 0.1, 5e-2 * cm});
     run_helper_case(C, W, "gaussian/proton", {pr, Ar1MeV, 2.0, 0.5, 1e-3 * cm});
     run_helper_case(C, W, "gamma/proton", {pr, Ar1MeV, 2.0, 0.5, 1.0 * cm});
+    // doubly charged projectiles (Tmax of a 5 MeV alpha ~ 2.7 keV < Tcut)
+    run_helper_case(C, W, "gaussian/alpha", {4, Ar1MeV, 5.0, 0.5, 1e-3 * cm});
+    run_helper_case(C, W, "gamma/alpha", {4, Ar1MeV, 5.0, 0.5, 1.0 * cm});
+    run_helper_case(C, W, "gaussian/anti-alpha", {5, H2O, 8.0, 1.0, 2e-3 * cm});
+    run_helper_case(C, W, "urban/alpha-fast", {4, Ar1keV, 4e3, 0.05, 1e-2 * cm});
     // straddle thresholds: mean = 10 T (1 +- d), mean^2 = 4 var (1 +- d)
     for (int side = -1; side <= 1; side += 2)
     {
@@ -563,7 +610,7 @@ inline void points_eloss_helper(Ctx& C, ElossWorld& W, verif::Rng& g)
     for (int i = 0; i < nrand; ++i)
     {
         HelperCase c;
-        c.par = int(g.integer(0, 3));
+        c.par = int(g.integer(0, 5));
         c.mat = int(g.integer(0, 5));
         c.E = g.loguniform(1e-3, 1e4);
         c.mean_loss = g.loguniform(2e-6, std::min(c.E, 10.0));
